@@ -100,6 +100,34 @@ theorem waitChange_snapshot_at_suspension (s : PSim) (h : Nat) (sigs : List Sig)
     (suspend s h (.waitChange sigs)).ext.watches =
       s.ext.watches ++ [{ handle := h, sigs := sigs, snap := sigs.map (sigVal s), insertionId := s.nextId }] := rfl
 
+/-! ### (e) joining a forked process -/
+
+/-- **joiners resume in the order they began to wait**: when process `h` reaches its end, exactly the processes waiting for it are
+    appended to the handler's ready queue, in the order in which they started to wait (`join` appends at the back of the waiting list);
+    `run()` then resumes the ready queue front to back (`drain`, by definition). Joiners of other processes keep waiting. -/
+theorem joiners_resume_in_waiting_order (s : PSim) (h : Nat) (hf : s.ext.finished.contains h = false) :
+    (finishProc s h).ext.ready = s.ext.ready ++ (s.ext.joiners.filter (·.1 == h)).map (·.2) ∧
+    (finishProc s h).ext.joiners = s.ext.joiners.filter (·.1 != h) ∧
+    (finishProc s h).ext.finished = s.ext.finished ++ [h] := by
+  simp only [finishProc, hf, Bool.false_eq_true, if_false, and_self]
+
+/-- a process that ended stays ended: a second call changes nothing (nobody is resumed twice) -/
+theorem finish_once (s : PSim) (h : Nat) (hf : s.ext.finished.contains h = true) : finishProc s h = s := by
+  simp only [finishProc, hf, if_true]
+
+/-- `run()` takes the front of the ready queue first -/
+theorem ready_queue_is_fifo (fuel : Nat) (s : PSim) (r : Nat) (rest : List Nat) (hr : s.ext.ready = r :: rest) :
+    drain (fuel + 1) s = drain fuel (runProc procFuel { s with ext := { s.ext with ready := rest } } r) := by
+  simp [drain, hr]
+
+-- three processes (2, 5, 3 — in this order) wait for process 1, one waits for process 4: the end of 1 makes exactly 2, 5, 3 ready, in that order
+example (s : PSim) (h1 : s.ext.joiners = [(1, 2), (4, 9), (1, 5), (1, 3)]) (h2 : s.ext.finished = []) (h3 : s.ext.ready = []) :
+    (finishProc s 1).ext.ready = [2, 5, 3] ∧ (finishProc s 1).ext.joiners = [(4, 9)] := by
+  have hf : s.ext.finished.contains 1 = false := by rw [h2]; rfl
+  obtain ⟨r1, r2, _⟩ := joiners_resume_in_waiting_order s 1 hf
+  rw [r1, r2, h1, h3]
+  decide
+
 /-! ### (a) phase visibility -/
 
 /-- BEFORE-phase and DURING-phase resumptions are taken out of the queue before the clock edge of the same instant -/
